@@ -74,5 +74,11 @@ def updateEdgeAttrs (g : RGraph) (a b : Nat) (attrs : Attrs) : RGraph :=
 def neighbors (g : RGraph) (k : Nat) : List Nat :=
   g.edges.filterMap (fun e => if e.u == k then some e.v else if e.v == k then some e.u else none)
 
+/-- rename every node key `x` to `x + k` (resids, names, attributes and all orders unchanged) -/
+def shiftKeys (g : RGraph) (k : Nat) : RGraph :=
+  { nodes := g.nodes.map (fun n => { n with key := n.key + k }),
+    edges := g.edges.map (fun e => { e with u := e.u + k, v := e.v + k }),
+    maxResid := g.maxResid }
+
 end RGraph
 end PolyplyVerif
